@@ -115,7 +115,7 @@ package store
 //@   ensures  tombstone: result == nil ==> exists c string :: world.hasRec[c] && !old(world.hasRec[c]) && !world.hasCRec[c] && world.recKey[c] == key && world.recTx[c] == ctxTxId(ctx) &&
 //@                          forall d string :: d != c ==> world.hasRec[d] == old(world.hasRec[d]) && world.recTx[d] == old(world.recTx[d]) &&
 //@                             world.recKey[d] == old(world.recKey[d]) && world.recSeq[d] == old(world.recSeq[d])
-//@   ensures  finished_tx_rejected: !txKnown(ctxTxId(ctx)) ==> result != nil && is(result, fs_db.ErrTxNotFound)
+//@   expects  finished_tx_rejected: !txKnown(ctxTxId(ctx)) ==> result != nil && is(result, fs_db.ErrTxNotFound)
 
 // ---- Set: content, then content record, then version record ----
 // vUnchanged: no version record changed.
@@ -131,7 +131,7 @@ package store
 //@                          world.recKey[c] == old(world.recKey[c]) && world.recSeq[c] == old(world.recSeq[c])
 //@   exitassert record:  result == nil ==> world.hasCRec[cFile.Id] && world.cParent[cFile.Id] == cFile.Parent
 //@   exitassert complete: result == nil ==> world.hasBlob[pathJoin(cFile.Parent, cFile.Id)] && world.blob[pathJoin(cFile.Parent, cFile.Id)] == streamOf(old(content))
-//@   ensures  finished_tx_rejected: !txKnown(ctxTxId(ctx)) ==> result != nil && is(result, fs_db.ErrTxNotFound)
+//@   expects  finished_tx_rejected: !txKnown(ctxTxId(ctx)) ==> result != nil && is(result, fs_db.ErrTxNotFound)
 //@ loop (*UseCase).Set>(Dirs).Iterate$2#1
 //@   invariant jump:    jump$1 == 0
 //@   invariant idx:     -1 <= rangeindex && rangeindex + 1 <= len(ds)
